@@ -139,6 +139,15 @@ def _run_case(ck, lib, case):
       lib.mj_forwardSkip(m, a, stage, skipsensor)
       lib.mj_forwardSkip(m, b, E.mjSTAGE_NONE, skipsensor)
     skip = ()
+    # mjContact.H ("cone Hessian, set by mj_constraintUpdate") is solver scratch: it is written only for an elliptic contact in
+    # the middle (cone) zone when the Newton solver asks for it. Elsewhere the skip side legitimately keeps the H of its earlier
+    # pass while the twin's freshly created contact holds zeros -> H is compared only where this call defines it.
+    for d in (a, b):
+      for i in range(int(d.ncon)):
+        adr = int(d.contact['efc_address'][i])
+        defined = (int(m.opt.solver) == E.mjSOL_NEWTON and adr >= 0 and int(d.efc_state[adr]) == E.mjCNSTRSTATE_CONE)
+        if not defined:
+          d.contact['H'][i] = 0
     # unwritten arena elements of the skip side keep the bytes of its first full pass: only the twin carries FB
     sa, sb = dc.snapshot(lib, m, a), dc.snapshot(lib, m, b)
     for k in dc.diff(sa, sb):
